@@ -157,7 +157,24 @@ class Stub:
         return f"<stub {self.name}>"
 
     def __bool__(self):
+        if "__list__" in self.attrs:
+            return bool(self.attrs["__list__"])
         return True
+
+    def __iter__(self):
+        if "__list__" in self.attrs:
+            return iter(list(self.attrs["__list__"]))
+        raise TypeError(f"{self!r} is not iterable")
+
+    def __len__(self):
+        if "__list__" in self.attrs:
+            return len(self.attrs["__list__"])
+        raise TypeError(f"{self!r} has no len()")
+
+    def __getitem__(self, i):
+        if "__list__" in self.attrs:
+            return self.attrs["__list__"][i]
+        raise TypeError(f"{self!r} is not subscriptable")
 
     @classmethod
     def match(cls, groups):
@@ -636,11 +653,20 @@ class Folder:
                 if owner is None or owner.cls is None:
                     raise AnalysisError("constfold: super() outside a method")
                 m = owner.cls.find_method(f.attr, after=owner.cls)
+                selfv = e.get(owner.params[0])
+                if m is None and isinstance(selfv, Stub) and "__list__" in selfv.attrs \
+                        and f.attr in ("__init__", "append", "extend", "insert", "pop", "remove", "__len__", "__iter__", "clear"):
+                    args = self._elts(x.args, e)
+                    if f.attr == "__init__":
+                        selfv.attrs["__list__"] = list(args[0]) if args else []
+                        return None
+                    if f.attr == "extend":
+                        args = [list(args[0])]
+                    return getattr(selfv.attrs["__list__"], f.attr)(*args)
                 if m is None:
                     if f.attr == "__init__":
                         return None
                     raise AnalysisError(f"constfold: super().{f.attr} not found")
-                selfv = e.get(owner.params[0])
                 args = self._elts(x.args, e)
                 kw = {k.arg: self._eval(k.value, e) for k in x.keywords}
                 return self.call_function(m, args, kw, self_value=selfv)
@@ -725,9 +751,14 @@ class Folder:
             if tgt.cls.name in getattr(self, "object_classes", ()):
                 # a plain in-package value class a rule asked to have really constructed: run its __init__
                 obj = Stub(tgt.cls.name, {}, cls=tgt.cls)
+                ext = tgt.cls.external_bases()
+                if any(b_.split(".")[-1] == "list" for b_ in ext):
+                    obj.attrs["__list__"] = []
                 init = tgt.cls.find_method("__init__")
                 if init is not None:
                     self.call_function(init, args, kw, self_value=obj)
+                elif "__list__" in obj.attrs and args:
+                    obj.attrs["__list__"] = list(args[0])
                 return obj
             return Inst(tgt.cls, args, kw)
         if isinstance(tgt, FuncRef):
